@@ -5,12 +5,18 @@ Per generated module set (check/props/schema_gen.py, plus the feature schemas be
           every node from every module that can name it, one-bad-step variants at every position and a sibling
           relative path, and tests POINTER identity of the result; any entry of `findviol` is a violation.
   tie     the same kind of queries, generated here from the implementation's dump (every node x every module and
-          submodule that names its tree by a prefix; the unprefixed absolute spelling from nodes of the tree and from
+          submodule that names its tree by a prefix, also started at nodes inside the trees with the prefix of the
+          module whose text wrote the start node; the unprefixed absolute spelling from nodes of the tree and from
           the root entries of its submodules; bad-step variants; relative paths with several "..";
           rpc/action input and output created on demand, looked up again, and a step below the fresh node), are
           evaluated by Entry.Find (harness/go/c17.go `find17`, position recovered through Parent pointers) and by
           the extracted Schema.Find (harness/ml/cmd_c17.ml): found/not found, position, name and kind of the
           result must agree, and so must the two forests after the queries (frame of the on-demand creation).
+  revisions (implementation only; the core model has no revisions) text-level family: module lib loaded in 2-3
+          revisions with partly different children, users importing it with revision-date, without, and under two
+          prefixes at once, many load orders; absolute paths through those import prefixes from the users' nodes
+          (harness/go/c17.go `findrev`): a pinned import denotes exactly that revision's entry tree (identified by
+          pointer), an unpinned one the latest revision's; a path that exists only in another revision finds nothing.
   oracle  the position the query was built from (or "nothing") is what both must return; the model forest must
           pass the extracted well-formedness check wf_forestb, the hypothesis of the theorems.
 """
@@ -163,6 +169,24 @@ def queries_for(schema, dump, rnd, budget):
             if rnd.random() < 0.4:
                 parts2 = parts + [BAD] if rnd.random() < 0.5 or not t[k:] else parts[:-1] + [BAD] + parts[-1:]
                 q("relbad", (mn, p), (mn, p), "/".join(parts2), "-")
+    # absolute prefixed paths started INSIDE the trees: the prefix is resolved in the module whose text wrote the start
+    # node (for a node that came in through uses, an augment or a submodule: not the module owning the tree), which the
+    # dump tells by the file of the node's statement; the implementation's own report of that module is cross-checked
+    allnodes = []
+    for mn in sorted(mods):
+        ns = []
+        walk(mods[mn]["tree"], [], ns)
+        allnodes += [(mn, st, nd) for st, nd in ns]
+    targets = [x for x in allnodes if x[1]]
+    for mn, st, nd in rnd.sample(allnodes, min(len(allnodes), 40)):
+        ctxname = nd.get("src", "").split(".yang")[0]
+        if ctxname not in byname or not targets:
+            continue
+        for tmn, tst, tnd in rnd.sample(targets, min(len(targets), 5)):
+            for pfx in prefixes_for(schema, byname[ctxname], tmn):
+                parts = [pfx + ":" + step_name(x) for x in tst]
+                qs.append(dict(kind="abs-inside", go=(mn, st), ml=(mn, st), path="/" + "/".join(parts),
+                               want=expect(tmn, tst, tnd), ctx=ctxname))
     if len(qs) > budget:
         keep = sorted(rnd.sample(range(len(qs)), budget))
         qs = [qs[i] for i in keep]
@@ -264,13 +288,13 @@ def check_batch(res, schemas, rnd, budget, stats):
         j = json.loads(line)
         rs = j["find"]
         ctxs = [r.split("|", 1)[0] for r in rs]
-        parsed.append((j, [r.split("|", 1)[1] for r in rs], line))
+        parsed.append((j, [r.split("|", 1)[1] for r in rs], line, ctxs))
         ml_cases.append(ml_find_case(sc, opts, qs, ctxs))
     ml = lib.run_ml(ml_cases)
     for (sc, qs, canon0), pj, mline, mcase in zip(work, parsed, ml, ml_cases):
         if pj is None:
             continue
-        j, gres, gline = pj
+        j, gres, gline, gctx = pj
         rep = dict(kind="find17", schema=sc, queries=[dict(x, go=list(x["go"]), ml=list(x["ml"])) for x in qs])
         if not mline.startswith("ok wf="):
             res.violation("model did not process a module set the implementation accepts: %s" % mline[:200], rep)
@@ -284,8 +308,12 @@ def check_batch(res, schemas, rnd, budget, stats):
             res.violation("find17 answered %d/%d of %d queries" % (len(gres), len(mres), len(qs)), rep)
             continue
         bad = 0
-        for x, g, m in zip(qs, gres, mres):
+        for x, g, m, cx in zip(qs, gres, mres, gctx):
             stats["queries"][x["kind"]] = stats["queries"].get(x["kind"], 0) + 1
+            if x.get("ctx") and x["ctx"] != cx and bad < 3:
+                bad += 1
+                res.violation("the start node /%s of %s was written in %s, the implementation resolves prefixes in %s"
+                              % ("/".join(step_name(y) for y in x["go"][1]), x["go"][0], x["ctx"], cx), rep)
             if g != x["want"] and bad < 3:
                 bad += 1
                 res.violation("Entry.Find(%r) from %s returned %s, the path names %s" % (x["path"], x["go"], g, x["want"]),
@@ -299,6 +327,104 @@ def check_batch(res, schemas, rnd, budget, stats):
             res.violation("forests differ after the lookups (on-demand input/output): impl=%s model=%s" % ((canon or st)[:200], mforest[:200]),
                           dict(rep, impl=canon, model=mforest))
         stats["tied"] += 1
+
+
+# ------------------------------------------------------------------ pinned revisions (implementation only)
+REVS = ["2018-05-05", "2019-01-01", "2020-01-01"]
+
+
+def lib_paths(i):
+    return [("top",), ("top", "shared"), ("top", "only-%d" % i), ("top", "c-%d" % i), ("top", "c-%d" % i, "x"),
+            ("t-%d" % i,), ("common",)]
+
+
+def lib_text(i, history):
+    revs = "".join("  revision %s;\n" % r for r in history)
+    return ("module lib {\n  namespace \"urn:lib\";\n  prefix l;\n%s"
+            "  container top {\n    leaf shared { type string; }\n    leaf only-%d { type string; }\n"
+            "    container c-%d { leaf x { type string; } }\n  }\n  leaf t-%d { type string; }\n  leaf common { type string; }\n}\n"
+            % (revs, i, i, i))
+
+
+def user_text(k, imports):
+    imp = "".join("  import lib { prefix %s; %s}\n" % (p, ("revision-date %s; " % REVS[pin]) if pin is not None else "")
+                  for p, pin in imports)
+    return ("module u%d {\n  namespace \"urn:u%d\";\n  prefix u%d;\n%s  leaf here { type string; }\n"
+            "  container uc { leaf ul { type string; } }\n}\n" % (k, k, k, imp))
+
+
+def revision_cases(rnd, tier):
+    """(case line, expected results, description) for the family: lib in 2-3 revisions with partly different children,
+    users importing it with and without revision-date (and under two prefixes at once), many load orders"""
+    import itertools
+    out = []
+    for revset in ((0, 1), (1, 2), (0, 2), (0, 1, 2)):
+        latest = max(revset)
+        libs = []
+        for i in revset:
+            hist = [REVS[i]] + [REVS[j] for j in range(i) if rnd.random() < 0.5]
+            if rnd.random() < 0.5:
+                hist.reverse()                       # the newest revision statement need not come first
+            libs.append(("lib@%s.yang" % REVS[i], lib_text(i, hist)))
+        users = [[("l", i)] for i in revset] + [[("l", None)], [("q", None)], [("old", min(revset)), ("new", None)],
+                                               [("a", revset[0]), ("b", revset[-1])]]
+        utexts = [("u%d.yang" % k, user_text(k, imps)) for k, imps in enumerate(users)]
+        union = sorted({p for i in revset for p in lib_paths(i)})
+        qs, want = [], []
+
+        def ask(key, st, pfx, rev):
+            for p in union:
+                qs.append((key, st, "/" + "/".join(pfx + ":" + x for x in p)))
+                want.append(("lib@%s|%s" % (REVS[rev], sg.hx("/lib/" + "/".join(p)))) if p in lib_paths(rev) else "-")
+        for k, imps in enumerate(users):
+            for st in ((), ("here",), ("uc", "ul")):
+                for pfx, pin in imps:
+                    ask("u%d" % k, st, pfx, latest if pin is None else pin)
+        for i in revset:
+            ask("lib@" + REVS[i], ("top", "shared"), "l", i)
+        ask("lib", (), "l", latest)
+        perms = list(itertools.permutations(libs))
+        orders = []
+        for pl in perms:
+            orders += [list(pl) + utexts, utexts + list(pl), [x for pair in itertools.zip_longest(utexts, pl) for x in pair if x]]
+        if tier != "quick":
+            for _ in range(40):
+                o = libs + utexts
+                rnd.shuffle(o)
+                orders.append(o)
+        for o in orders:
+            toks = ["findrev", str(len(o))]
+            for name, text in o:
+                toks += [sg.hx(name), sg.hx(text)]
+            toks.append(str(len(qs)))
+            for key, st, path in qs:
+                toks += [sg.hx(key), str(len(st))] + ["C" + x.encode().hex() for x in st] + [sg.hx(path)]
+            out.append((" ".join(toks), want, dict(revisions=[REVS[i] for i in revset], order=[n for n, _ in o],
+                                                   texts=dict(o), queries=[[k, list(st), p] for k, st, p in qs])))
+    return out
+
+
+def check_revisions(res, rnd, tier, stats):
+    cases = revision_cases(rnd, tier)
+    outs = lib.run_go([c for c, _, _ in cases])
+    reported = 0
+    for (line, want, desc), o in zip(cases, outs):
+        stats["revision_sets"] += 1
+        t = o.split(" ")
+        if t[0] != "ok" or len(t) - 1 != len(want):
+            if reported < 3:
+                reported += 1
+                res.violation("pinned-revision family: the module set was not processed: %s" % o[:300],
+                              dict(kind="revisions", case=line, desc=desc, want=want))
+            continue
+        for (key, st, path), g, w in zip(desc["queries"], t[1:], want):
+            stats["revision_lookups"] += 1
+            if g != w and reported < 3:
+                reported += 1
+                show = lambda r: r if "|" not in r else r.split("|")[0] + ":" + bytes.fromhex(r.split("|")[1]).decode()
+                res.violation("pinned revision: Find(%r) from /%s of %s (load order %s) returned %s, the import denotes %s"
+                              % (path, "/".join(st), key, desc["order"], show(g), show(w)),
+                              dict(kind="revisions", case=line, desc=desc, want=want))
 
 
 def gen_schemas(rnd, n):
@@ -317,22 +443,24 @@ def gen_schemas(rnd, n):
 def run(res, tier, seed, proof):
     rnd = random.Random(seed)
     n = 140 if tier == "quick" else 2500
-    budget = 260 if tier == "quick" else 500
-    stats = dict(status={}, impl_lookups=0, features={}, queries={}, tied=0)
+    budget = 330 if tier == "quick" else 600
+    stats = dict(status={}, impl_lookups=0, features={}, queries={}, tied=0, revision_sets=0, revision_lookups=0)
     schemas = feature_schemas() + gen_schemas(rnd, n)
     for i in range(0, len(schemas), 400):
         check_batch(res, schemas[i:i + 400], rnd, budget, stats)
+    check_revisions(res, rnd, tier, stats)
     clean = stats["status"].get("ok", 0)
     nq = sum(stats["queries"].values())
     cov = dict(
-        evaluations=stats["impl_lookups"] + nq, distinct_nontrivial=nq,
+        evaluations=stats["impl_lookups"] + nq + stats["revision_lookups"], distinct_nontrivial=nq,
         rule="module sets from schema_gen.random_schema (three knob settings) plus two hand-written feature sets; "
              "for every set that processes cleanly: the harness' pointer-identity lookups (option f) and, tied to the "
              "model, every node's absolute path from every (sub)module that names its tree, bad-step variants, relative "
              "paths between random node pairs, on-demand input/output; non-trivial = a query answered by both sides",
         exhaustive=False, module_sets=len(schemas), clean=clean, clean_ratio=round(clean / max(1, len(schemas)), 3),
         distribution=dict(status=stats["status"], features=stats["features"], queries=stats["queries"],
-                          impl_pointer_lookups=stats["impl_lookups"], tied_sets=stats["tied"]),
+                          impl_pointer_lookups=stats["impl_lookups"], tied_sets=stats["tied"],
+                          pinned_revision_sets=stats["revision_sets"], pinned_revision_lookups=stats["revision_lookups"]),
         samples=[sg.render_module(m)[:300] for m in schemas[2][:2]],
     )
     if clean * 10 < len(schemas) * 6:
@@ -342,12 +470,24 @@ def run(res, tier, seed, proof):
                    "abstract schema (schema_gen.render_module / enc_module)",
                    "the context module of a lookup is the module whose text defines the start node (reported by the "
                    "implementation as RootNode(e.Node)); the model takes it as a parameter",
+                   "pinned-revision family: implementation only, expectation by construction (the core model has no revisions)",
                    "lookups starting at a submodule's own root entry are compared for absolute paths only (prefixed: start "
                    "passed to the model as the owner's root; unprefixed: start passed under the submodule's name)"]
     return cov, assumptions
 
 
 def replay(rep, res):
+    if rep.get("kind") == "revisions":
+        o = lib.run_go([rep["case"]])[0].split(" ")
+        for n in rep["desc"]["order"]:
+            print("//", n)
+            print(rep["desc"]["texts"][n])
+        rc = 0 if o[0] == "ok" and o[1:] == rep["want"] else 1
+        for q, g, w in zip(rep["desc"]["queries"], o[1:], rep["want"]):
+            if g != w:
+                print("Find(%s) from %s /%s: got %s want %s" % (q[2], q[0], "/".join(q[1]), g, w))
+        print("status:", o[0])
+        return rc
     sc = rep["schema"]
     for m in sc:
         print(sg.render_module(m))
